@@ -12,6 +12,16 @@ import itertools
 from .model import AnalysisError, src, dotted, call_name, norm_stmt
 
 
+# kinds of symbolic objects whose class defines `__eq__` to *build an object* (PEPit: Expression.__eq__ returns a Constraint): `a == b` involving
+# one of them is truthy whatever a and b are, `a != b` is falsy, and list membership / list.remove / list.index find "a match" at the first
+# element of such a kind.  Filled by sa/model.py from the analysed tree (empty when the tree defines no such `__eq__`).
+EQ_OBJECT_KINDS = set()
+
+
+def _eq_builds_object(x):
+    return isinstance(x, SymObj) and x.kind in EQ_OBJECT_KINDS
+
+
 TOKENS = ("read", "call", "array", "attr", "op", "neg", "entry", "obj", "symmat", "tr", "slice", "matrix", "type", "cmp")
 
 
@@ -198,6 +208,30 @@ class IndexInterp:
                     res = self.on_compare(left, type(op).__name__, right, e)
                     if res is not NotImplemented:
                         return res
+                if isinstance(op, (ast.Eq, ast.NotEq)) and (_eq_builds_object(left) or _eq_builds_object(right)) and left is not right:
+                    if len(e.ops) == 1:
+                        return SymObj("Constraint", label="built by __eq__") if isinstance(op, ast.Eq) else False
+                    if isinstance(op, ast.NotEq):
+                        return False
+                    left = right
+                    continue
+                if isinstance(op, (ast.In, ast.NotIn)) and isinstance(right, (list, tuple)) and not is_token(right) and \
+                        (_eq_builds_object(left) or any(_eq_builds_object(x) for x in right)):
+                    found = False
+                    for x in right:
+                        if x is left or _eq_builds_object(left) or _eq_builds_object(x):
+                            found = True
+                            break
+                        try:
+                            if x == left:
+                                found = True
+                                break
+                        except Exception:
+                            pass
+                    if found != isinstance(op, ast.In):
+                        return False
+                    left = right
+                    continue
                 if isinstance(op, (ast.Eq, ast.NotEq)) and isinstance(left, (dict, list, tuple)) and isinstance(right, (dict, list, tuple)) \
                         and not is_token(left) and not is_token(right) and type(left) is type(right):
                     same = _deep_eq(left, right)
@@ -427,6 +461,28 @@ class IndexInterp:
                 return set(items) if nm == "set" else frozenset(items)
             except TypeError:
                 raise AnalysisError("unhashable element in `%s`" % src(e)[:60])
+        if isinstance(e.func, ast.Attribute) and nm in ("remove", "index", "count") and len(args) == 1:
+            try:
+                base = self.ev(e.func.value)
+            except AnalysisError:
+                base = None
+            if isinstance(base, list):
+                def matches(x):
+                    if x is args[0] or _eq_builds_object(x) or _eq_builds_object(args[0]):
+                        return True          # `==` of an object-building class is truthy: the first such element "matches"
+                    try:
+                        return bool(x == args[0])
+                    except Exception:
+                        return False
+                hits = [k for k, x in enumerate(base) if matches(x)]
+                if nm == "count":
+                    return len(hits)
+                if not hits:
+                    raise AnalysisError("the index program raises: ValueError `%s`" % src(e)[:60])
+                if nm == "index":
+                    return hits[0]
+                del base[hits[0]]
+                return None
         if isinstance(e.func, ast.Attribute) and nm in ("add", "discard") and len(args) == 1:
             try:
                 base = self.ev(e.func.value)
